@@ -2,8 +2,9 @@
 """converts /verif/seeded/<ID>-<i>/{patch.diff,demo.py,meta.json} into the layout tools/run_seeded.py reads"""
 import os, sys, shutil, glob
 src, dst = sys.argv[1], sys.argv[2]
-for d in sorted(glob.glob(os.path.join(src, 'C*-*'))):
-    pid, i = os.path.basename(d).split('-')
+prefix = sys.argv[3] if len(sys.argv) > 3 else ''      # e.g. 'w2-' for the second wave
+for d in sorted(glob.glob(os.path.join(src, prefix + 'C*-*'))):
+    pid, i = os.path.basename(d)[len(prefix):].split('-')
     o = os.path.join(dst, pid); os.makedirs(o, exist_ok=True)
     shutil.copy(os.path.join(d, 'patch.diff'), os.path.join(o, f'patch{i}.diff'))
     shutil.copy(os.path.join(d, 'demo.py'), os.path.join(o, f'demo{i}.py'))
